@@ -73,6 +73,8 @@ type inst struct {
 	names    map[string][]ssa.Value // source name -> values (DebugRef)
 	hdrState map[*loopInfo]*hdrSnap
 	letVals  map[string]Val
+	loopFrames map[*loopInfo]map[string]*region
+	at       *ssa.BasicBlock // evaluation point for name resolution
 	cenvBase *cenv
 	panicOK  bool
 	callStack []*ssa.Function
@@ -709,6 +711,10 @@ func (in *inst) indexAddr(n *vnode, st *State, x *ssa.IndexAddr) {
 		in.safety(n, st, "index", and("(bvsle #x0000000000000000 "+idx+")", "(bvslt "+idx+" (slen "+base.T+"))"), x.Pos())
 		ea := fv.def("ea", "Loc", lelem("(sarr "+base.T+")", "(bvadd (soff "+base.T+") "+idx+")"))
 		fv.elemLocs[ea] = true
+		// every index the code uses is an instantiation point for assumed "forall i in .." clauses
+		if fv.boundDepth == 0 && !fv.hasSkolem(idx) {
+			fv.instantiateLazies(idx, bvSort(64))
+		}
 		in.setVal(n, x, Val{K: KLoc, T: ea, Typ: x.Type()})
 	case *types.Pointer:
 		arr := t.Elem().Underlying().(*types.Array)
@@ -1078,10 +1084,13 @@ func (in *inst) convert(n *vnode, st *State, v Val, from, to types.Type) Val {
 			fv.havocHeap(st, leafKey(et), bvSort(8), func(l string) string { return and("(isLElem "+l+")", eq("(epar "+l+")", arr)) },
 				func(l string) string { return "(s_at " + s + " (eidx " + l + "))" })
 		} else {
-			fv.assume("true", and("(bvsle #x0000000000000000 "+ln+")", "(bvsle "+ln+" (s_len "+v.T+"))",
+			// []rune(s): length and elements are the uninterpreted decoding s_nrunes / s_runeat
+			fv.assume("true", and(eq(ln, "(s_nrunes "+v.T+")"), "(bvsle #x0000000000000000 "+ln+")", "(bvsle "+ln+" (s_len "+v.T+"))",
 				implies("(bvsgt (s_len "+v.T+") #x0000000000000000)", "(bvsgt "+ln+" #x0000000000000000)"),
 				"(bvsle (s_len "+v.T+") (bvmul #x0000000000000004 "+ln+"))"))
-			fv.havocHeap(st, leafKey(et), bvSort(ew), func(l string) string { return and("(isLElem "+l+")", eq("(epar "+l+")", arr)) }, nil)
+			s := v.T
+			fv.havocHeap(st, leafKey(et), bvSort(ew), func(l string) string { return and("(isLElem "+l+")", eq("(epar "+l+")", arr)) },
+				func(l string) string { return "(s_runeat " + s + " (eidx " + l + "))" })
 		}
 		cp := fv.decl("cap", bvSort(64))
 		fv.assume("true", and("(bvsle "+ln+" "+cp+")", "(bvslt "+cp+" #x0000400000000000)"))
